@@ -884,24 +884,96 @@ func (r *resolver) findGrouping(y *Uses) (*Grouping, error) {
 }
 
 func (r *resolver) applyRefinements(u *Uses, parent Definition) error {
+	var off []Definition
 	for _, refine := range u.refines {
 		on, err := checkFeature(refine)
 		if err != nil {
 			return err
 		}
-		if !on {
-			// only this refine is off, the ones after it still apply
-			continue
-		}
 		target := Find(parent.(HasDataDefinitions), refine.Ident())
 		if target == nil {
+			if g, err := r.findGrouping(u); err == nil && r.featureOffOnPath(g.DataDefinitions(), strings.Split(refine.Ident(), "/"), nil) {
+				// the node is not there because one of its features is off, there is nothing to refine
+				continue
+			}
 			return fmt.Errorf("%s:could not find target for refine %s", SchemaPath(u), refine.Ident())
+		}
+		if !on {
+			// RFC7950 Sec 7.13.2 the if-feature of a refine is one more if-feature of
+			// the node it is about. Taken out once every refine had its say
+			off = append(off, target)
+			continue
 		}
 		if err := r.refine(target, refine); err != nil {
 			return err
 		}
 	}
+	for _, target := range off {
+		if c, isCase := target.(*ChoiceCase); isCase {
+			delete(c.Parent().(*Choice).cases, c.Ident())
+			continue
+		}
+		hasDDefs, valid := target.Parent().(HasDataDefinitions)
+		if !valid {
+			return fmt.Errorf("%s:cannot take out %s", SchemaPath(u), target.Ident())
+		}
+		existing := hasDDefs.popDataDefinitions()
+		for _, candidate := range existing {
+			if candidate != target {
+				if err := hasDDefs.addDataDefinition(candidate); err != nil {
+					return err
+				}
+			}
+		}
+	}
 	return nil
+}
+
+// featureOffOnPath is true when the node a path leads to inside the body of a grouping,
+// or a node on the way, has an if-feature that is off
+func (r *resolver) featureOffOnPath(defs []Definition, path []string, seen []*Grouping) bool {
+	if i := strings.IndexByte(path[0], ':'); i >= 0 {
+		path = append([]string{path[0][i+1:]}, path[1:]...)
+	}
+	for _, d := range defs {
+		if u, isUses := d.(*Uses); isUses {
+			g, err := r.findGrouping(u)
+			if err != nil {
+				continue
+			}
+			again := false
+			for _, s := range seen {
+				again = again || s == g
+			}
+			if !again && r.featureOffOnPath(g.DataDefinitions(), path, append(seen, g)) {
+				return true
+			}
+			continue
+		}
+		if d.Ident() != path[0] {
+			continue
+		}
+		if hasIf, valid := d.(HasIfFeatures); valid {
+			if on, err := checkFeature(hasIf); err == nil && !on {
+				return true
+			}
+		}
+		if len(path) == 1 {
+			return false
+		}
+		if ch, isChoice := d.(*Choice); isChoice {
+			var cases []Definition
+			for _, id := range ch.CaseIdents() {
+				cases = append(cases, ch.cases[id])
+			}
+			return r.featureOffOnPath(cases, path[1:], nil)
+		}
+		if x, valid := d.(HasDataDefinitions); valid {
+			return r.featureOffOnPath(x.DataDefinitions(), path[1:], nil)
+		}
+		return false
+	}
+	return false
 }
 
 func (r *resolver) refine(target Definition, y *Refine) error {
